@@ -49,6 +49,15 @@ func Generate(r *gen.R, p Params) *H {
 	if r.Chance(0.3) {
 		h.Shuffle = r.Uint64() | 1
 	}
+	// time zones: the same instants, expressed in different Locations, mixed within one
+	// child's versions (and among parent versions); instants are unchanged
+	zones := r.Chance(0.4)
+	zone := func() int {
+		if !zones || r.Chance(0.3) {
+			return 0
+		}
+		return r.Intn(len(Zones))
+	}
 
 	// mode → feature probabilities
 	pDel, pUndel := 0.0, 0.6
@@ -101,7 +110,7 @@ func Generate(r *gen.R, p Params) *H {
 		if i > 0 {
 			t += gap()
 		}
-		pv := PVer{Version: i + 1, Visible: true, Sec: t, CS: g.freshCS()}
+		pv := PVer{Version: i + 1, Visible: true, Sec: t, CS: g.freshCS(), Zone: zone()}
 		if p.Regime == Commit {
 			pv.Lag = r.Int64Range(0, 90)
 		}
@@ -314,7 +323,7 @@ func Generate(r *gen.R, p Params) *H {
 		}
 		vis := true
 		for k, e := range evs {
-			v := Ver{Version: ver, Sec: e.sec, CS: e.cs}
+			v := Ver{Version: ver, Sec: e.sec, CS: e.cs, Zone: zone()}
 			if p.Regime == Commit {
 				v.Lag = r.Int64Range(0, 120)
 			}
@@ -354,7 +363,7 @@ func Generate(r *gen.R, p Params) *H {
 					n := len(ch.Vers)
 					if n > 0 && ch.Vers[n-1].Sec <= h.Parents[i].Sec && ch.Vers[n-1].Visible {
 						lv := ch.Vers[n-1]
-						nv := Ver{Version: lv.Version + 1, Visible: false, Sec: h.Parents[i].Sec + r.Int64Range(0, 1), CS: h.Parents[i].CS, Lag: lv.Lag}
+						nv := Ver{Version: lv.Version + 1, Visible: false, Sec: h.Parents[i].Sec + r.Int64Range(0, 1), CS: h.Parents[i].CS, Lag: lv.Lag, Zone: zone()}
 						ch.Vers = append(ch.Vers, nv)
 					}
 				}
@@ -436,7 +445,11 @@ func markMissing(h *H, r *gen.R) {
 
 // Burst returns the enumerated same-instant family: one parent version, one child at nIdx
 // indices, one version before the parent and n-1 later versions that all share one second.
-func Burst(way bool, regime Regime, n, nIdx int) *H {
+func Burst(way bool, regime Regime, n, nIdx int) *H { return BurstZ(way, regime, n, nIdx, false) }
+
+// BurstZ is Burst; with zones the versions that share the second are expressed in rotating
+// Locations (same instant, different time.Time structs).
+func BurstZ(way bool, regime Regime, n, nIdx int, zones bool) *H {
 	h := &H{Way: way, Regime: regime, Eps: 30}
 	T := int64(1400000000)
 	if regime == Stamp {
@@ -445,7 +458,11 @@ func Burst(way bool, regime Regime, n, nIdx int) *H {
 	ch := Child{Type: osm.TypeNode, Ref: 11}
 	ch.Vers = append(ch.Vers, Ver{Version: 1, Visible: true, Sec: T - 5000, CS: 50, Lat: 1.001, Lon: -1.001})
 	for v := 2; v <= n; v++ {
-		ch.Vers = append(ch.Vers, Ver{Version: v, Visible: true, Sec: T + 9000, CS: 60, Lat: 1 + float64(v)/1000, Lon: -1 - float64(v)/1000})
+		nv := Ver{Version: v, Visible: true, Sec: T + 9000, CS: 60, Lat: 1 + float64(v)/1000, Lon: -1 - float64(v)/1000}
+		if zones {
+			nv.Zone = (v * 3) % len(Zones)
+		}
+		ch.Vers = append(ch.Vers, nv)
 	}
 	h.Children = []Child{ch}
 	p := PVer{Version: 1, Visible: true, Sec: T, CS: 55}
